@@ -7,7 +7,7 @@ launch-size statements / index maps / kept loop headers are pasted verbatim
 into C harnesses whose postcondition is the property's own statement.
 """
 import functools
-import itertools
+import os
 import random
 import re
 
@@ -136,7 +136,7 @@ def family(tier, seed):
                 for bound in FAMILY_BOUNDS:
                     for upd in LIT_UPDATES[d]:
                         full.append((pos, Header('i', init, cmp, upd, bound)))
-            for init in ('a', '0'):
+            for init in ('a',):
                 for bound in ('N', 'N+b', 'N>>1'):
                     for upd in RT_UPDATES[d]:
                         full.append((pos, Header('i', init, cmp, upd, bound)))
@@ -156,7 +156,7 @@ FINDING_SHAPES = [
     ('outer', 'ltL', '+=3', 'a', 'N'),        # empty range: N=0, a=5 -> (0 - 5 + 3 - 1) / 3 = -1
     ('inner', 'ltL', 'pre++', '0', 'N'),
     ('outer', 'leL', '+=s+1', 'a', 'N+b'),
-    ('outer', 'gtL', '-=s', '0', 'N+b'),
+    ('outer', 'gtL', '-=s', 'a', 'N+b'),
 ]
 
 
@@ -177,31 +177,37 @@ def nest_programs(n, seed):
 
 # ------------------------------------------------------------------ harnesses
 
-def src_functions(h):
-    return ('/* meaning of the source loop header `%s` (from the OKL text) */\n'
-            'static int src_init(%s) { return %s; }\n'
-            'static int src_bound(%s) { return %s; }\n'
-            'static int src_step(%s) { return %s; }\n'
-            % (h.c_loop(), ', '.join('int ' + p for p in PARAMS), INITS[h.init],
-               ', '.join('int ' + p for p in PARAMS), BOUNDS[h.bound],
-               ', '.join('int ' + p for p in PARAMS), h.step))
+IPARAMS = ', '.join('int ' + p for p in PARAMS)
+
+HELPERS = '''/* harness-side helpers; their arithmetic cannot overflow by construction (|init| < 2^30, j <= 2^33, step <= 2^28) */
+#pragma CPROVER check push
+#pragma CPROVER check disable "signed-overflow"
+static long verif_iterate(long init, unsigned long j, long step, int dir) { return dir > 0 ? init + (long) j * step : init - (long) j * step; }
+#pragma CPROVER check pop
+/* a value the simplifier cannot fold (keeps every obligation a real solver goal) */
+static int verif_opaque(int x) { int y = nondet_int(); __CPROVER_assume(y == x); return y; }
+'''
 
 
-def spec_defs(h):
-    cond = ('((it) %s verif_bound)' if h.side == 'L' else '(verif_bound %s (it))') % OPS[h.op]
-    return ('#define SRC_CHECK(it) %s\n'
-            '#define ITERATE(j) (verif_init %s (long)(j) * verif_step)\n' % (cond, '+' if h.dir > 0 else '-'))
+def src_functions(h, with_bound=True):
+    t = '/* meaning of the source loop header (from the OKL text)%s */\n' % (': `%s`' % h.c_loop() if with_bound else '')
+    t += 'static int src_init(%s) { return %s; }\n' % (IPARAMS, INITS[h.init])
+    if with_bound:
+        t += 'static int src_bound(%s) { return %s; }\n' % (IPARAMS, BOUNDS[h.bound])
+    t += 'static int src_step(%s) { return %s; }\n' % (IPARAMS, h.step)
+    if with_bound:
+        cond = ('((it) %s verif_bound)' if h.side == 'L' else '(verif_bound %s (it))') % OPS[h.op]
+        t += '#define SRC_CHECK(it) %s\n' % cond
+    t += '#define ITERATE(j) verif_iterate(verif_init, (j), verif_step, %d)\n' % h.dir
+    return t
 
 
-def driver(h):
-    """h(): run-time operands in the box; run-time steps case-split."""
+def operands(h):
+    """run-time operands in the box; a run-time step is fixed per case (-DVERIF_S=k)"""
     decl = eb.int_params(PARAMS, '-' + V, V)
-    cases = h.cases()
-    if cases is None:
-        calls = '  check(%s);' % ARGS
-    else:
-        calls = '\n'.join('  check(N, a, b, c, %d);' % k for k in cases)
-    return 'void h(void) {\n%s\n%s\n}\n' % (decl, calls)
+    if h.runtime_step:
+        decl += '\n  __CPROVER_assume(s == VERIF_S);             /* case split of the run-time step */'
+    return decl
 
 
 def count_harness(prog, h, attr, L):
@@ -210,60 +216,60 @@ def count_harness(prog, h, attr, L):
     n_inner = len(prog.loops) - n_outer
     emitted = '\n'.join('  %s;' % s for s in L['stmts'])
     return '''typedef unsigned long udim_t;
+%s%s%s
+void h(void) {
 %s
-%s%s
-static void check(%s) {
   const long verif_init = src_init(%s), verif_bound = src_bound(%s), verif_step = src_step(%s);
   /* occa::dim elements (udim_t), any prior content */
   udim_t outer[3] = { nondet_ulong(), nondet_ulong(), nondet_ulong() }, inner[3] = { nondet_ulong(), nondet_ulong(), nondet_ulong() };
   /* ---- launch block emitted by `occa translate --launcher`, verbatim ---- */
 %s
   /* ---- contract (property C17) ---- */
-  __CPROVER_assert(%d == %d && %d == %d, "launcher declares one dimension per @outer loop and one per @inner loop");
-  __CPROVER_assert(%d, "the count of an @%s loop is assigned to %s[]");
+  __CPROVER_assert(verif_opaque(%d) == %d && verif_opaque(%d) == %d,
+                   "launcher declares one dimension per @outer loop and one per @inner loop");
+  __CPROVER_assert(verif_opaque(%d), "the count of an @%s loop is assigned to %s[]");
   const udim_t verif_dim = %s[%d];           /* launch size computed for loop `%s` */
   const udim_t verif_j = nondet_ulong();      /* ghost index instead of a quantifier */
-  __CPROVER_assume(verif_j <= (1ul << 33));   /* beyond: see the last assertion */
+  __CPROVER_assume(verif_j <= (1ul << 33));   /* beyond: see the second assertion */
   const long verif_xj = ITERATE(verif_j);     /* j-th iterate of the sequential loop */
 #ifndef CANARY
   if (SRC_CHECK(verif_init)) {
     __CPROVER_assert((verif_j < verif_dim) == (SRC_CHECK(verif_xj) ? 1 : 0),
                      "launch count (non-empty source loop): index j is launched iff the j-th iterate of the sequential loop satisfies its check");
+    __CPROVER_assert(verif_dim <= (1ul << 33),
+                     "launch count (non-empty source loop): no index beyond the int range of iterates is launched");
   } else {
     __CPROVER_assert(verif_dim == 0,
                      "launch count (empty source loop): nothing is launched when the run-time bounds make the loop empty");
   }
-  __CPROVER_assert(verif_dim <= (1ul << 33), "launch count: no index beyond the int range of iterates is launched");
 #else
   __CPROVER_assert(!(SRC_CHECK(verif_xj) && verif_j >= 2), "canary: a loop with three iterations is reachable");
 #endif
 }
-%s''' % (eb.NONDET_DECLS, src_functions(h), spec_defs(h),
-         ', '.join('int ' + p for p in PARAMS), ARGS, ARGS, ARGS,
-         emitted,
-         L['outer_dims'], n_outer, L['inner_dims'], n_inner,
-         1 if kind == attr else 0, attr, attr,
-         kind, k, h.it, driver(h))
+''' % (eb.NONDET_DECLS, HELPERS, src_functions(h),
+       operands(h), ARGS, ARGS, ARGS,
+       emitted,
+       L['outer_dims'], n_outer, L['inner_dims'], n_inner,
+       1 if kind == attr else 0, attr, attr,
+       kind, k, h.it)
 
 
-def index_harness(prog, h, attr, mode, L, decl_stmt):
-    kind, k, E, stmt = L['dims'][h.it]
+INDEX_PRELUDE_ALL = ('struct verif_uint3 { unsigned int x, y, z; };\n'
+                     'static struct verif_uint3 blockIdx, threadIdx;   /* CUDA, HIP: uint3 built-ins */\n'
+                     'static struct verif_uint3 _occa_group_position, _occa_thread_position;   /* Metal: uint3 kernel arguments */\n'
+                     + eb.INDEX_PRELUDE['OpenCL'] + eb.INDEX_PRELUDE['dpcpp'].split('\n', 1)[1])
+
+
+def index_check(h, mode, kind, k, decl_stmt, ishape):
     reg, rtype = eb.index_register(mode, kind, k)
     havoc = '\n'.join('  %s = nondet_u%s();' % (r, 'int' if t == 'unsigned int' else 'long')
                       for r, t in eb.index_registers(mode))
-    return '''typedef unsigned long udim_t;
-%s
-/* index registers of the back end (%s) */
-%s
-%s%s
-static void check(%s) {
+    return '''static void check_%s(%s, unsigned long verif_j) {
   const long verif_init = src_init(%s), verif_step = src_step(%s);
-  const udim_t verif_j = nondet_ulong();      /* ghost index */
-  __CPROVER_assume(verif_j <= (1ul << 31));
   const long verif_xj = ITERATE(verif_j);     /* j-th iterate of the sequential loop */
   __CPROVER_assume(-2147483648l <= verif_xj && verif_xj <= 2147483647l);   /* the sequential loop does not overflow */
-  /* every index register arbitrary, except the one that carries launcher dimension %s[%d] (the emitted launcher
-     assigns the size of loop `%s` to %s[%d]) */
+  /* every index register arbitrary, except the one that carries launcher dimension %s[%d]
+     (the emitted launcher assigns the size of loop `%s` to %s[%d]) */
 %s
   %s = (%s) verif_j;
   {
@@ -272,52 +278,105 @@ static void check(%s) {
     /* ---- contract (property C17) ---- */
 #ifndef CANARY
     __CPROVER_assert((long) %s == verif_xj,
-                     "index map: launched index j gets the iterator value of the j-th sequential iteration");
+                     "index map [%s, %s]: launched index j gets the iterator value of the j-th sequential iteration");
 #else
     __CPROVER_assert(!(verif_j == 2), "canary: index 2 is reachable");
 #endif
   }
 }
-%s''' % (eb.NONDET_DECLS, mode, eb.INDEX_PRELUDE[mode], src_functions(h), spec_defs(h),
-         ', '.join('int ' + p for p in PARAMS), ARGS, ARGS,
-         kind, k, h.it, kind, k, havoc, reg, rtype, mode, decl_stmt, h.it, driver(h))
+''' % (mode, IPARAMS, ARGS, ARGS, kind, k, h.it, kind, k, havoc, reg, rtype, mode, decl_stmt, h.it, ishape, mode)
+
+
+def index_unit(h, per_mode, ishape, case):
+    """One unit of an index-map batch: all launcher back ends of one (position, update, init) shape.
+    per_mode: [(mode, kind, k, verbatim declaration)].  Names get the unit suffix @U@."""
+    # back ends that emit the same declaration over the same register (CUDA and HIP) share one check
+    merged = []
+    for m, kind, k, d in per_mode:
+        key = (d, eb.index_register(m, kind, k))
+        for e in merged:
+            if e[0] == key:
+                e[1].append(m)
+                break
+        else:
+            merged.append((key, [m], kind, k, d))
+    checks = ''.join(index_check(h, ms[0], kind, k, d, ishape).replace('check_%s(' % ms[0], 'check_%s(' % '_'.join(ms))
+                     .replace('[%s, %s]' % (ishape, ms[0]), '[%s, %s]' % (ishape, '+'.join(ms)))
+                     for _, ms, kind, k, d in merged)
+    calls = '\n'.join('  check_%s(%s, verif_j);' % ('_'.join(ms), ARGS) for _, ms, _, _, _ in merged)
+    decl = eb.int_params(PARAMS, '-' + V, V)
+    if case is not None:
+        decl += '\n  __CPROVER_assume(s == %d);             /* case split of the run-time step */' % case
+    text = '''%s
+%s
+static void unit(void) {
+%s
+  const unsigned long verif_j = nondet_ulong();      /* ghost index */
+  __CPROVER_assume(verif_j <= (1ul << 31));
+%s
+}
+''' % (src_functions(h, with_bound=False), checks, decl, calls)
+    return re.sub(r'\b(src_init|src_step|ITERATE|unit|check_[A-Za-z_]+)\b', r'\1_@U@', text)
+
+
+def index_batch(units):
+    body = ''.join(u.replace('@U@', str(i)) for i, u in enumerate(units))
+    return '''typedef unsigned long udim_t;
+%s%s/* index registers of the back ends */
+%s
+%s
+void h(void) {
+%s}
+''' % (eb.NONDET_DECLS, HELPERS, INDEX_PRELUDE_ALL, body, ''.join('  unit_%d();\n' % i for i in range(len(units))))
 
 
 def kept_case(n, tag, h, f):
     """Equivalence of the kept `for` header (Serial/OpenMP) with the source header, part by part."""
-    shape = tag
     it = h.it
     return '''static void kept_%d(void) {
 %s
   int verif_x = nondet_int(); __CPROVER_assume(-(1 << 30) <= verif_x && verif_x <= (1 << 30));
-  { int verif_s = (%s); int verif_e = (%s);
+  { int verif_s = verif_opaque(%s); int verif_e = (%s);
     __CPROVER_assert(verif_s == verif_e, "kept loop %s: emitted initial value equals the source's"); }
-  { int %s = verif_x; int verif_s = (%s) ? 1 : 0; int verif_e = (%s) ? 1 : 0;
+  { int %s = verif_x; int verif_s = verif_opaque((%s) ? 1 : 0); int verif_e = (%s) ? 1 : 0;
     __CPROVER_assert(verif_s == verif_e, "kept loop %s: emitted check agrees with the source's for every iterator value"); }
-  { int %s = verif_x; %s; int verif_s = %s; %s = verif_x; %s; int verif_e = %s;
+  { int %s = verif_x; %s; int verif_s = verif_opaque(%s); %s = verif_x; %s; int verif_e = %s;
     __CPROVER_assert(verif_s == verif_e, "kept loop %s: emitted update steps like the source's"); }
 #ifdef CANARY
   __CPROVER_assert(verif_x != 5, "canary: kept-loop case reachable");
 #endif
 }
 ''' % (n, eb.int_params(PARAMS, '-' + V, V, {'s': ('0', '16')}),
-       INITS[h.init], f['init'], shape,
-       it, h.check_text(), f['check'], shape,
-       it, h.upd_text, it, it, f['update'], it, shape)
+       INITS[h.init], f['init'], tag,
+       it, h.check_text(), f['check'], tag,
+       it, h.upd_text, it, it, f['update'], it, tag)
 
 
 # -------------------------------------------------------------------- replay
 
-def replay_launch(prog, h, attr, mode, L, decl_stmt, ctx, g, o, inputs):
+def replay_index_batch(units, ctx, g, o, inputs):
+    m = re.search(r'_(\d+)$', o.function or '')
+    if not m or int(m.group(1)) >= len(units):
+        return {'reproduced': False, 'error': 'failing unit not identified from %r' % o.function}
+    prog, h, attr, per_mode, L, case = units[int(m.group(1))]
+    return replay_launch(prog, h, attr, per_mode, L, case, ctx, g, o, inputs)
+
+
+def replay_launch(prog, h, attr, per_mode, L, case, ctx, g, o, inputs):
     """Original loop and emitted launcher formula + index map, compiled by g++,
     run on the counterexample's operand values."""
     vals = dict((p, eb.trace_int(inputs, p)) for p in PARAMS)
+    if case is not None:
+        vals['s'] = case
     kind, k, E, stmt = L['dims'][h.it]
+    mode = per_mode[0][0]
+    m = re.match(r'check_([A-Za-z]+)', o.function or '')
+    if m:
+        for pm in per_mode:
+            if pm[0] == m.group(1):
+                mode = pm[0]
+    decl_stmt = [pm[3] for pm in per_mode if pm[0] == mode][0]
     reg, rtype = eb.index_register(mode, kind, k)
-    cand = [vals]
-    if h.runtime_step:
-        # the harness fixes s per case; the trace names the case through the call argument
-        cand = [dict(vals, s=c) for c in ([vals['s']] if vals['s'] in h.cases() else []) + h.cases()]
     src = r'''#include <cstdio>
 #include <cstdlib>
 #include <vector>
@@ -330,35 +389,46 @@ int main(int argc, char **argv) {
   unsigned long nseq = 0;
   /* the original sequential loop */
   %s { if (nseq < CAP) seq.push_back(%s); ++nseq; }
-  /* the emitted launch block */
+  /* the emitted launch block (mode %s) */
   udim_t outer[3] = {1, 1, 1}, inner[3] = {1, 1, 1};
 %s
   const udim_t dim = %s[%d];
+  /* the emitted index map, for every launched index (first CAP) */
   for (udim_t j = 0; j < dim && j < CAP; ++j) {
+%s
     %s = (%s) j;
     { %s; par.push_back(%s); }
   }
   printf("N=%%d a=%%d b=%%d c=%%d s=%%d\n", N, a, b, c, s);
-  printf("source loop   `%s`: %%lu iterations:", nseq);
+  printf("source loop `%s`: %%lu iterations:", nseq);
   for (size_t q = 0; q < seq.size() && q < 8; ++q) printf(" %%ld", seq[q]);
-  printf("\nemitted `%s`: %%lu launched:", (unsigned long) dim);
+  printf("\nemitted `%s` and `%s`: %%lu launched:", (unsigned long) dim);
   for (size_t q = 0; q < par.size() && q < 8; ++q) printf(" %%ld", par[q]);
   printf("\n");
   bool same = (nseq == dim) && seq == par;
   printf(same ? "SAME\n" : "DIFFERENT\n");
   return same ? 0 : 1;
 }
-''' % (eb.INDEX_PRELUDE[mode], h.c_loop(), h.it,
-       '\n'.join('  %s;' % s for s in L['stmts']), kind, k, reg, rtype, decl_stmt, h.it,
-       h.c_loop().replace('%', '%%'), stmt.replace('%', '%%').replace('\n', ' '))
+''' % (eb.INDEX_PRELUDE[mode], h.c_loop(), h.it, mode,
+       '\n'.join('  %s;' % s for s in L['stmts']), kind, k,
+       '\n'.join('    %s = 12345;   /* every other index register: arbitrary */' % r for r, _ in eb.index_registers(mode)),
+       reg, rtype, decl_stmt, h.it,
+       h.c_loop().replace('%', '%%'), stmt.replace('%', '%%').replace('\n', ' '),
+       decl_stmt.replace('%', '%%').replace('\n', ' '))
+    # the counterexample first; if CBMC's values do not show it natively (e.g. the failure is UB in the
+    # emitted formula), a few fixed operand vectors from DESIGN 7
+    cand = [vals] + [dict(vals, **d) for d in (
+        {'N': 0, 'a': 5, 'b': 0}, {'N': 10, 'a': 2, 'b': 3, 'c': 1}, {'N': -10, 'a': -2, 'b': 3, 'c': 1},
+        {'N': 100, 'a': 3, 'b': 20, 'c': 0}, {'N': -100, 'a': -3, 'b': 20, 'c': 0})]
     last = None
-    for v in cand[:18]:
+    for v in cand:
         rc, out = eb.native_run(ctx, 'replay_c17', src, args=[v[p] for p in PARAMS], timeout=60)
         last = (v, rc, out)
         if rc == 1 and 'DIFFERENT' in out:
             from vp import replaylib
             p = replaylib.keep_replay_source(ctx, g, src)
-            return {'reproduced': True, 'input': v, 'program': p, 'okl': prog.okl, 'mode': mode,
+            return {'reproduced': True, 'input': v, 'from_counterexample': v is vals, 'program': p,
+                    'okl': prog.okl, 'mode': mode,
                     'how': 'original loop and emitted launcher statements + index declaration compiled with g++ -O0',
                     'output': out[-800:]}
     return {'reproduced': False, 'input': last[0] if last else vals, 'output': (last[2] if last else '')[-800:]}
@@ -370,6 +440,9 @@ def PROGRAMS():
     return eb.programs_translated()
 
 
+QUICK_RT_CASES = [1, 3, 16]
+
+
 def select(ctx):
     fam = family(ctx.tier, ctx.seed)
     if ctx.tier == 'thorough':
@@ -379,7 +452,7 @@ def select(ctx):
         want = {(p, c, u, i, b) for p, c, u, i, b in FINDING_SHAPES}
         fixed = [(pos, h) for pos, h in fam if (pos, h.cmp, h.upd, h.init, h.bound) in want]
         rest = [(pos, h) for pos, h in fam if (pos, h.cmp, h.upd, h.init, h.bound) not in want and not h.runtime_step]
-        progs = [base_program(pos, h) for pos, h in fixed + eb.sample(rest, 90, ctx.seed)]
+        progs = [base_program(pos, h) for pos, h in fixed + eb.sample(rest, int(os.environ.get('VERIF_SAMPLE', '60')), ctx.seed)]
         nests = nest_programs(2, ctx.seed)
     return progs + nests
 
@@ -390,13 +463,23 @@ def build(ctx):
             [(m, False) for m in eb.KEPT_MODES]
     res = eb.translate(ctx, [p.okl for p in progs], modes)
     groups = []
-    count_h, index_h = {}, {}        # harness text -> [info...]
-    kept = {}                        # (source header, emitted parts) -> (tag, h, f)
+    count_h, index_h = {}, {}
+    kept = {}
+
+    def cases_of(h):
+        if not h.runtime_step:
+            return [None]
+        cs = h.cases()
+        if ctx.tier == 'quick':
+            cs = [c for c in cs if (c if h.step == 's' else c + 1) in QUICK_RT_CASES]
+        return cs
+
     for n, prog in enumerate(progs):
         for it in prog.tested:
             attr, h = prog.header(it)
             shape = ('%s/%s' % (attr, h.shape())) if prog.tag == 'base' else \
                     ('nest/%s/%s/%s' % (it, attr, h.shape()))
+            per_mode, Ls = [], {}
             for mode in eb.LAUNCHER_MODES:
                 try:
                     lfn = eb.need(res, n, mode, True, shape)
@@ -414,11 +497,16 @@ def build(ctx):
                 except Undecided as e:
                     groups.append(eb.undecided_group('C17/locate/%s/%s' % (mode, shape), str(e), shape))
                     continue
-                ch = count_harness(prog, h, attr, L)
-                count_h.setdefault((ch, shape), []).append((mode, prog, h, attr, L, dstmt))
-                ih = index_harness(prog, h, attr, mode, L, dstmt)
+                Ls[mode] = L
+                per_mode.append((mode, L['dims'][it][0], L['dims'][it][1], dstmt))
+            if per_mode:
+                for mode in Ls:
+                    ch = count_harness(prog, h, attr, Ls[mode])
+                    count_h.setdefault((ch, shape), []).append((mode, prog, h, attr, Ls[mode], per_mode))
                 ishape = ('%s/i%s/init=%s' % (attr, h.upd, h.init)) if prog.tag == 'base' else shape
-                index_h.setdefault(ih, []).append((mode, prog, h, attr, L, dstmt, ishape))
+                for case in cases_of(h):
+                    iu = index_unit(h, per_mode, ishape + ('' if case is None else '/s=%d' % case), case)
+                    index_h.setdefault(iu, []).append((prog, h, attr, per_mode, Ls[per_mode[0][0]], case))
             for mode in eb.KEPT_MODES:
                 try:
                     kfn = eb.need(res, n, mode, False, shape)
@@ -444,40 +532,48 @@ def build(ctx):
     # launch-size groups: one per distinct harness (back ends emitting the same launch block share it)
     for (text, shape), infos in count_h.items():
         modes_ = '+'.join(m for m in eb.LAUNCHER_MODES if any(i[0] == m for i in infos))
-        mode, prog, h, attr, L, dstmt = infos[0]
-        rt = h.runtime_step
+        mode, prog, h, attr, L, per_mode = infos[0]
+        for case in cases_of(h):
+            groups.append(Group(
+                name='C17/count/%s/%s%s' % (modes_, shape, '' if case is None else '/s=%d' % case),
+                sources={'count.c': text}, entry='h', defines=[] if case is None else ['VERIF_S=%d' % case],
+                extra_cbmc=['--sat-solver', 'cadical'], min_obligations=4, timeout=900,
+                strength='proof' if case is None else 'bounded',
+                bound='' if case is None else 'run-time step case-split over 1..16 (one group per value)',
+                canary='CANARY', canary_label='canary',
+                param=shape + ' :: ' + L['dims'][h.it][3].replace('\n', ' '),
+                replay=functools.partial(replay_launch, prog, h, attr, per_mode, L, case),
+                note='|operands| <= 2^28'))
+    # index-map groups: the emitted declaration does not depend on the check, so many programs share one unit;
+    # units are batched (they are not expected to fail; the label names the shape)
+    units = list(index_h.items())
+    IB = 8
+    for b in range(0, len(units), IB):
+        chunk = units[b:b + IB]
+        rt = any(infos[0][5] is not None for _, infos in chunk)
         groups.append(Group(
-            name='C17/count/%s/%s' % (modes_, shape), sources={'count.c': text}, entry='h',
-            extra_cbmc=['--sat-solver', 'cadical'], min_obligations=4, timeout=900,
-            strength='bounded' if rt else 'proof',
-            bound='run-time step case-split over 1..16' if rt else '',
-            canary='CANARY', canary_label='canary', param=shape + ' :: ' + L['dims'][h.it][3].replace('\n', ' '),
-            replay=functools.partial(replay_launch, prog, h, attr, mode, L, dstmt),
-            note='|operands| <= 2^28'))
-    for text, infos in index_h.items():
-        modes_ = '+'.join(m for m in eb.LAUNCHER_MODES if any(i[0] == m for i in infos))
-        mode, prog, h, attr, L, dstmt, ishape = infos[0]
-        rt = h.runtime_step
-        groups.append(Group(
-            name='C17/index/%s/%s' % (modes_, ishape), sources={'index.c': text}, entry='h',
-            extra_cbmc=['--sat-solver', 'cadical'], min_obligations=1, timeout=900,
+            name='C17/index/%s/batch-%03d' % ('+'.join(eb.LAUNCHER_MODES), b // IB),
+            sources={'index.c': index_batch([u for u, _ in chunk])}, entry='h',
+            extra_cbmc=['--sat-solver', 'cadical'], min_obligations=3 * len(chunk), timeout=900,
             strength='bounded' if rt else 'proof',
             bound='run-time step case-split over 1..16' if rt else '',
             canary='CANARY', canary_label='canary',
-            param='%s :: %s (same emitted text in %d programs)' % (ishape, dstmt, len({id(i[1]) for i in infos})),
-            replay=functools.partial(replay_launch, prog, h, attr, mode, L, dstmt)))
+            param='%d (position, update, init) shapes covering %d programs' % (len(chunk), sum(len(i) for _, i in chunk)),
+            replay=functools.partial(replay_index_batch, [infos[0] for _, infos in chunk])))
     # kept loops (Serial / OpenMP): batches of part-by-part equivalences
     items = list(kept.values())
     B = 40
     for b in range(0, len(items), B):
         chunk = items[b:b + B]
-        text = eb.NONDET_DECLS + ''.join(kept_case(i, shape + ' [' + '+'.join(sorted(ms)) + ']', h, f)
-                                         for i, (shape, h, f, ms) in enumerate(chunk))
+        text = eb.NONDET_DECLS + HELPERS + ''.join(
+            kept_case(i, shape + ' [' + '+'.join(sorted(ms)) + ']', h, f) for i, (shape, h, f, ms) in enumerate(chunk))
         text += 'void h(void) {\n%s}\n' % ''.join('  kept_%d();\n' % i for i in range(len(chunk)))
-        identical = sum(1 for shape, h, f, ms in chunk
-                        if eb.squash(f['header']) == eb.squash(h.c_loop()))
+        identical = sum(1 for shape, h, f, ms in chunk if eb.squash(f['header']) == eb.squash(h.c_loop()))
         groups.append(Group(
             name='C17/kept/Serial+OpenMP/batch-%02d' % (b // B), sources={'kept.c': text}, entry='h',
             min_obligations=3 * len(chunk), timeout=900, canary='CANARY', canary_label='canary',
             param='%d kept headers (%d textually identical to the source up to whitespace)' % (len(chunk), identical)))
+    only = os.environ.get('VERIF_ONLY')          # development aid: restrict to groups matching a regex
+    if only:
+        groups = [g for g in groups if re.search(only, g.name)]
     return groups
